@@ -34,6 +34,7 @@ type cmapOutcome struct {
 	cmNil    bool              // the mappings pointer was set to nil
 	newCM    bool              // a fresh CMapInfo was stored
 	dictPut  []string
+	sortMem  []map[string]sv // the memory at each "sort" effect, in their order
 }
 
 type cmapMachine struct {
@@ -178,6 +179,11 @@ func (m *cmapMachine) run(fn *ssa.Function, cs cmapCase) cmapOutcome {
 			}
 		case n == "sort.Slice" || n == "sort.SliceStable":
 			ev.effects = append(ev.effects, ssaEffect{ins: call, what: "sort", args: args})
+			snap := make(map[string]sv, len(ev.mem))
+			for k, v := range ev.mem {
+				snap[k] = v
+			}
+			out.sortMem = append(out.sortMem, snap)
 			return sv{}, true
 		}
 		return sv{}, false
@@ -506,22 +512,26 @@ func (c *Ctx) endcmapRules(m *cmapMachine) {
 	fname := c.fname(f)
 	o := m.run(f, cmapCase{inCmap: true})
 	// which tables are sorted, and with which comparator
-	sorted := map[string]*ssa.Function{}
+	// the comparison is what the second argument of the sort call evaluates to: a function literal
+	// written in place, a closure made by a helper, a declared function
+	type sortedBy struct {
+		cmp  sv            // the function value with the values its free variables are bound to
+		mem  map[string]sv // the memory when the sort was called
+		list string        // the list that is sorted
+	}
+	sorted := map[string]*sortedBy{}
+	nSort := 0
 	for _, ef := range o.effects {
-		if ef.what != "sort" || len(ef.args) != 2 || ef.args[0].k != svList {
+		if ef.what != "sort" {
 			continue
 		}
-		call := ef.ins.(ssa.CallInstruction)
-		var cmp *ssa.Function
-		switch v := call.Common().Args[1].(type) {
-		case *ssa.MakeClosure:
-			cmp, _ = v.Fn.(*ssa.Function)
-		case *ssa.Function:
-			cmp = v
+		nSort++
+		if len(ef.args) != 2 || ef.args[0].k != svList || ef.args[1].fn == nil || nSort > len(o.sortMem) {
+			continue
 		}
 		for fld, id := range o.tableIDs {
 			if id == ef.args[0].s {
-				sorted[fld] = cmp
+				sorted[fld] = &sortedBy{cmp: ef.args[1], mem: o.sortMem[nSort-1], list: id}
 			}
 		}
 	}
@@ -534,15 +544,15 @@ func (c *Ctx) endcmapRules(m *cmapMachine) {
 	sort.Strings(missing)
 	c.check(len(missing) == 0, "CMAP-SORT", fname, "all seven tables are sorted", f.Pos(), "7 sort calls", "endcmap does not sort "+strings.Join(missing, ", "))
 	for _, k := range cmapKinds {
-		cmp := sorted[k.field]
-		if cmp == nil {
+		by := sorted[k.field]
+		if by == nil {
 			continue
 		}
 		key := "Src"
 		if k.isRange {
 			key = "Low"
 		}
-		bad := c.cmapComparator(cmp, k.field, key, k.field == "CodeSpaceRanges")
+		bad := c.cmapComparator(by.cmp, by.mem, by.list, k.field, key, k.field == "CodeSpaceRanges")
 		want := "sorted by source code ([i] before [j], <)"
 		if k.field == "CodeSpaceRanges" {
 			want += ", length first"
@@ -562,17 +572,55 @@ func (c *Ctx) endcmapRules(m *cmapMachine) {
 
 // cmapComparator evaluates a sort comparator less(i, j) for the cells (order of lengths, order
 // of bytes) and checks that it orders by the key of the table it is applied to.
-func (c *Ctx) cmapComparator(cmp *ssa.Function, field, key string, lengthFirst bool) string {
+//
+// The entries must be those of the list that is being sorted: the symbolic address the comparator
+// indexes (free variable k, `*` a load, `.f` a field) is followed through the values the closure
+// captured and the memory at the time of the sort call (snap), and must arrive at that list.
+func (c *Ctx) cmapComparator(cmpV sv, snap map[string]sv, sortedList string, field, key string, lengthFirst bool) string {
+	cmp := cmpV.fn
+	var image func(s string, depth int) sv
+	image = func(s string, depth int) sv {
+		if depth > 12 {
+			return sv{}
+		}
+		if strings.HasPrefix(s, "free") && !strings.ContainsAny(s, ".*[") {
+			var k int
+			if _, err := fmt.Sscanf(s, "free%d", &k); err == nil && k < len(cmpV.fv) {
+				return cmpV.fv[k]
+			}
+			return sv{}
+		}
+		if strings.HasSuffix(s, "*") {
+			if a := image(s[:len(s)-1], depth+1); a.k == svAddr {
+				return snap[a.s]
+			}
+			return sv{}
+		}
+		if i := strings.LastIndex(s, "."); i > 0 && !strings.Contains(s[i:], "]") {
+			if a := image(s[:i], depth+1); a.k == svAddr {
+				return sv{k: svAddr, s: a.s + s[i:]}
+			}
+		}
+		return sv{}
+	}
 	for _, lenRel := range []int{-1, 0, 1} {
 		for _, byteRel := range []int{-1, 0, 1} {
 			ev := &ssaEval{c: c, bind: map[ssa.Value]sv{}, mem: map[string]sv{}}
 			usedField := map[string]bool{}
 			otherCmp := ""
+			otherTable := ""
 			ev.load = func(ld *ssa.UnOp, addr sv) (sv, bool) {
 				a := addr.s
 				// …<table>[i].<key>
 				for _, idx := range []string{"i", "j"} {
-					if strings.Contains(a, "["+idx+"].") {
+					if at := strings.Index(a, "["+idx+"]."); at >= 0 {
+						switch tbl := image(a[:at], 0); {
+						case tbl.k == svList && tbl.s == sortedList:
+						case tbl.k == svList:
+							otherTable = "it reads the entries of another table than the one it sorts"
+						default:
+							otherTable = "the entries it reads are not shown to be those of the table it sorts"
+						}
 						parts := strings.Split(a, ".")
 						fld := parts[len(parts)-1]
 						usedField[fld] = true
@@ -655,6 +703,9 @@ func (c *Ctx) cmapComparator(cmp *ssa.Function, field, key string, lengthFirst b
 			}
 			if !usedField[key] {
 				return fmt.Sprintf("it reads %v, expected the %s of the entries of %s", sortedKeys(usedField), key, field)
+			}
+			if otherTable != "" {
+				return otherTable
 			}
 			if !lengthFirst {
 				break // the length plays no part
